@@ -592,6 +592,36 @@ class MergeFlow(Engine):
         self.find_('SILENT-SUCCESS', st, node, cons,
                    'a warning is emitted on a path where no named element was missing or duplicated (or the same miss is reported twice)')
 
+    # -- collect-then-apply: child positions put aside in a container (directly, in a tuple, a partial or a closure) to be spent by
+    #    a later loop.  Whether the k-th stored position still fits depends on what that loop did before; and the decisions taken
+    #    while collecting (duplicate / missing element) are reported while applying.  Neither the index typestate nor the
+    #    per-path report typestate relate two loops element by element: no verdict instead of a guess.
+    def _holds_position(self, v, st, depth=0) -> bool:
+        if depth > 4:
+            return False
+        if isinstance(v, Ref):
+            return v.kind == 'idx' and st.get(v.sym).parent is not None and self.owner(Ref('elem', st.get(v.sym).parent), st) == 'RO' \
+                if v.kind == 'idx' and v.sym in st.heap and st.get(v.sym).parent in st.heap else False
+        if isinstance(v, TupleV):
+            return any(self._holds_position(x, st, depth + 1) for x in v.items)
+        t = type(v).__name__
+        if t == 'PartV':
+            return any(self._holds_position(x, st, depth + 1) for x in tuple(v.args) + tuple(x for _, x in v.kwargs))
+        if t == 'LamV':
+            return any(self._holds_position(x, st, depth + 1) for x in tuple(x for _, x in v.captured) + tuple(v.defaults))
+        return False
+
+    def _deferred_positions(self, st, value):
+        if any(f.func is not None and f.func.name == 'merge' for f in st.frames) and self._holds_position(value, st):
+            raise AnalysisError('collect-then-apply: positions in the running order are stored in a list for a later loop to use - outside the index abstraction')
+
+    def on_list_append(self, st, node, list=None, value=None):
+        if st.mon.get('itlog'):
+            self._deferred_positions(st, value)
+
+    def on_comp_yield(self, st, node, value=None):
+        self._deferred_positions(st, value)
+
     def on_elem_bool(self, st, node, elem):
         self.count('elem-bool', st, node)
         self.find_('NO-ELEM-BOOL', st, node, f'bool({self.describe(elem, st)})',
